@@ -206,6 +206,28 @@ def fam_teardown_nesting():
   return out
 
 
+def fam_checkpoint_context():
+  """C02: a checkpoint inside a subtest, with every kind of node (incl. a nested
+  subtest, whose phase records carry the inner subtest's name) between the
+  phases it looks back at and itself; a second checkpoint after the subtest"""
+  out = []
+  P = lambda n, b='CF': phase(n, beh(b))
+  p0 = lambda: phase('p0', beh('C', ds=[('0',), ('B',)]), ndiag=1)
+  mids = [lambda: [],
+          lambda: [P('m')],
+          lambda: [subtest('s2', [P('n')])],
+          lambda: [subtest('s2', [P('n', 'CX'), P('n2', 'C')])],
+          lambda: [group('g1', [], [P('n')], [P('t', 'C')])],
+          lambda: [seq([P('n')])],
+          lambda: [subtest('s2', [P('n'), ckpt('k0', 'SUBTEST', 'FAIL_SUBTEST', rs=('B',))]), P('m2', 'C')]]
+  for kind, action in CKPT_VARIANTS:
+    for mid in mids:
+      out.append(program([p0(), P('a'),
+                          subtest('s1', [P('b')] + mid() + [ckpt('k1', kind, action, rs=('B',)), P('c', 'C')]),
+                          ckpt('k2', kind, 'STOP', rs=('B',)), P('z', 'C')]))
+  return out
+
+
 def fam_plugs(tier):
   """C08: plugs x phases x faults"""
   out = []
